@@ -4,6 +4,7 @@ import (
 	"bytes"
 	"errors"
 	"fmt"
+	"math"
 	"os"
 	"path/filepath"
 	"sort"
@@ -940,6 +941,10 @@ func (m *Manager) recoverFromWAL() error {
 
 	// Get recovery options
 	recoveryOpts := memtable.DefaultRecoveryOptions(m.cfg)
+
+	// Flushing never truncates the WAL, so it regularly holds more than
+	// MaxMemTables * MemTableSize; recovery must not give up on such a log
+	recoveryOpts.MaxMemTables = math.MaxInt
 
 	// Recover memtables from WAL
 	memTables, maxSeqNum, err := memtable.RecoverFromWAL(m.cfg, recoveryOpts)
